@@ -101,6 +101,19 @@ def spill_rules(repo):
             out.append(violation("R-COVER", fi, role, "offset loop `%s` does not cover distances 0..n-1" % t, ol[0]))
         else:
             out.append(unrecognised("R-COVER", fi, role, t, ol[0]))
+    role = "the spill search visits every GC bin (highest first) and the selection emits every bin"
+    outer = [n_ for n_ in walk_no_nested(fi.node) if isinstance(n_, ast.For) and isinstance(n_.target, ast.Name) and n_.target.id == "i"
+             and any(x in stores for x in ast.walk(n_))]
+    sel = [n_ for n_ in walk_no_nested(fi.node) if isinstance(n_, ast.For) and any(isinstance(x, ast.For) and unparse(x.iter) == "range(matched_loci_bin_count[i])" for x in n_.body)]
+    nt = [unparse(s_.value) for s_ in walk_no_nested(fi.node) if isinstance(s_, ast.Assign) and unparse(s_.targets[0]) == "n"]
+    t1 = unparse(outer[0].iter) if outer else "?"
+    t2 = unparse(sel[0].iter) if sel else "?"
+    if t1 in ("range(n - 1, -1, -1)", "reversed(range(n))") and t2 == "range(n)" and nt == ["len(loci_bin_count)"]:
+        out.append(holds("R-COVER", fi, role, "%s ; %s" % (t1, t2), outer[0], nontrivial=False))
+    elif outer and sel and nt == ["len(loci_bin_count)"]:
+        out.append(violation("R-COVER", fi, role, "bins are visited by `%s` / emitted by `%s`: a GC bin is left out" % (t1, t2), outer[0] if t1 not in ("range(n - 1, -1, -1)", "reversed(range(n))") else sel[0]))
+    else:
+        out.append(unrecognised("R-COVER", fi, role, "%s ; %s ; n=%s" % (t1, t2, nt)))
     # COUNTS: every transfer is min(bg, wanted) and updates the three histograms together
     role = "each transfer takes min(background[idx], wanted[i]) and updates background, wanted and matched together"
     bad = None
@@ -191,6 +204,16 @@ def signal_window_rules(repo):
         out.append(violation("SIGNAL", fi, role, "N filter is inverted", fi.node))
     else:
         out.append(unrecognised("SIGNAL", fi, role, str([x for x in src if "n_perc" in x])))
+    role = "candidate tiles are grouped by their own GC bin"
+    gd = [x for x in src if x.startswith("gc_perc = {")]
+    if gd == ["gc_perc = {gc: numpy.nonzero(idxs & (gc_perc == gc))[0].tolist() for gc in unique_gc}"]:
+        out.append(holds("SIGNAL", fi, role, gd[0][:90], fi.node, nontrivial=False))
+    elif gd and "gc_perc != gc" in gd[0]:
+        out.append(violation("SIGNAL", fi, role, "tiles are grouped under every bin except their own", fi.node))
+    elif gd and "idxs &" not in gd[0]:
+        out.append(violation("SIGNAL", fi, role, "the N / signal filter `idxs` is not applied when grouping: %s" % gd[0][:80], fi.node))
+    else:
+        out.append(unrecognised("SIGNAL", fi, role, str(gd)[:120]))
     role = "the signal is reshaped into whole in_window tiles before windowing"
     ok = "values = values[:values.shape[0] // in_window * in_window]" in src and "values = values.reshape(-1, in_window)" in src
     out.append((holds if ok else unrecognised)("SIGNAL", fi, role, "trim to a multiple of in_window; reshape(-1, in_window)", fi.node, nontrivial=False))
